@@ -40,5 +40,11 @@ def main(tier, seed):
     chk = Check("C05", tier, seed)
     chk.assumptions = list(ASSUMPTIONS)
     c05.obligations(chk)
+    fails, n, d = c05_concrete.search(stop_at=3)
+    chk.bounded.append({"name": "bounded cross-check: composites over the type pool vs their member-wise reconstruction on the real code",
+                        "evaluations": n, "distinct_nontrivial": d, "failures": len(fails),
+                        "rule": "every composite pool type x its values (unmarshal of the wire form and marshal), compared with the composite rebuilt from independently obtained member routines"})
+    for f in fails:
+        chk.violation("bounded-cross-check :: " + str(f.get("type")), {"found": True, "kind": "c05-type", "case": f}, True)
     chk.resolve_failures(searcher)
     return chk.finish()
